@@ -297,7 +297,13 @@ func (dec *ttlvReader) Struct(tag int, f func(reader) error) error {
 	if err := dec.assertType(TypeStructure, tag); err != nil {
 		return err
 	}
-	if err := f(&ttlvReader{buf: dec.value()}); err != nil {
+	v := dec.value()
+	// Restrict the capacity so that children can not reach beyond the structure's extent
+	inner, err := newTTLVReader(v[:len(v):len(v)])
+	if err != nil {
+		return err
+	}
+	if err := f(inner); err != nil {
 		return err
 	}
 	return dec.Next()
